@@ -65,14 +65,15 @@ class C07:
                     elif k.startswith("secret"): all_draws.append(int(v, 16))
         for suite in P.SUITES:
             keys = P.make_keys(S, suite, 2)
-            flows = P.honest_sigs(S, suite, keys, [(3, b"h"), (5, None), (1, b"")])
+            flows = P.honest_sigs(S, suite, keys, [(3, b"h"), (5, None), (1, b""), (45, b"L")])
             # message scalars for the window scan
             for f in flows:
                 r = S.run(["ms2s %s %s %s" % (suite, tl(f["msgs"]), tb(pyc.API[suite]))], expect="ok", label="triv:ms2s")[0]
                 f["scalars"] = [r.b(0)[i:i+32] for i in range(0, len(r.b(0)), 32)]
             # identical inputs, many times (one batch => spread over 16 threads)
             f = flows[0]; D = [1]
-            fi = [(f, D, b"ph")] * n_rep + [(g, [0], None) for g in flows[1:] for _ in range(n_rep // 3)]
+            # the last flow hides 44 messages: more blinding scalars in ONE transcript than any batch size a generator might use
+            fi = [(f, D, b"ph")] * n_rep + [(g, [0], None) for g in flows[1:3] for _ in range(n_rep // 3)] + [(flows[3], [0], None)] * 2
             proofs = P.honest_proofs(S, fi, label="proofgen-repeat")
             res_lines = [c for c in S.cases[-len(fi):]]
             for c in res_lines: note_draws(c[1])
@@ -108,6 +109,21 @@ class C07:
             for r in res:
                 note_draws(r)
                 if r.status == "OK": elems["C"].append(r.b(0)[:48]); elems["blind"].append(r.b(1))
+            # one commitment to 40 messages: witness-side recomputation of s~, m~_1..m~_40 from the responses
+            cmL = P.rand_msgs(rng, 40)
+            rs = S.run(["ms2s %s %s %s" % (suite, tl(cmL), tb(pyc.API_BLIND[suite]))], expect="ok", label="triv:ms2s")[0]
+            msc = [int.from_bytes(rs.b(0)[i:i+32], "big") for i in range(0, len(rs.b(0)), 32)]
+            for r in S.run(["commit %s %s" % (suite, tl(cmL))] * 2, expect="ok", label="commit-large"):
+                note_draws(r)
+                if r.status != "OK": continue
+                cw = r.b(0); blind = int.from_bytes(r.b(1), "big")
+                sc = [int.from_bytes(cw[48 + 32*i:80 + 32*i], "big") for i in range(len(msc) + 2)]
+                ch = sc[-1]
+                rec = [(sc[0] - blind * ch) % pyc.R] + [(sc[1 + i] - msc[i] * ch) % pyc.R for i in range(len(msc))]
+                dr = [int(d.partition("=")[2], 16) for d in r.draws[2:].split(",")]
+                if sorted(rec + [blind]) != sorted(dr): P.fail(S, "blinding-recompute", "recomputed commitment blindings differ from the logged draws", ["commit %s <40 messages>" % suite])
+                if 0 in rec or len(set(rec + [blind])) != len(rec) + 1:
+                    P.fail(S, "blinding-zero-or-repeated", "zero or repeated blinding within one commitment transcript", ["commit %s <40 messages>" % suite])
             res = S.run(["keyrandom %s" % suite] * n_rep, expect="ok", label="keyrandom-repeat")
             for r in res:
                 note_draws(r)
@@ -425,6 +441,12 @@ class C10:
                 if j["result"]["valid"]:
                     add("sign %s %s %s %s %s" % (suite, tb(sk), tb(pk), tob(hdr), tl(msgs)), expect_eq(sig), "sign")
                     add("verify %s %s %s %s %s" % (suite, tb(pk), tb(sig), tob(hdr), tl(msgs)), "ok", "verify")
+                    if hdr == b"":      # the draft's "no header" vector: an ABSENT header must give the same octets / decision
+                        add("sign %s %s %s N %s" % (suite, tb(sk), tb(pk), tl(msgs)), expect_eq(sig), "sign-absent-header")
+                        add("verify %s %s %s N %s" % (suite, tb(pk), tb(sig), tl(msgs)), "ok", "verify-absent-header")
+                    if not msgs:
+                        add("sign %s %s %s %s N" % (suite, tb(sk), tb(pk), tob(hdr)), expect_eq(sig), "sign-absent-messages")
+                        add("verify %s %s %s %s N" % (suite, tb(pk), tb(sig), tob(hdr)), "ok", "verify-absent-messages")
                 else:
                     add("verify %s %s %s %s %s" % (suite, tb(pk), tb(sig), tob(hdr), tl(msgs)), "err", "verify-invalid")
             for fn in sorted(glob.glob(os.path.join(base, "proof", "*.json"))):
@@ -437,6 +459,8 @@ class C10:
                     add("Q%s proofgen %s %s %s %s %s %s %s" % ("".join("," + pyc.sc(x).hex() for x in sc), suite, tb(pk), tb(sig), tob(hdr), tob(ph), tl(msgs), ti(D)),
                         expect_eq(proof), "proofgen-mocked")
                     add("proofverify %s %s %s %s %s %s %s" % (suite, tb(pk), tb(proof), tl([msgs[i] for i in sorted(set(D))]), ti(D), tob(hdr), tob(ph)), "ok", "proofverify")
+                    if hdr == b"" or ph == b"":
+                        add("proofverify %s %s %s %s %s %s %s" % (suite, tb(pk), tb(proof), tl([msgs[i] for i in sorted(set(D))]), ti(D), "N" if hdr == b"" else tob(hdr), "N" if ph == b"" else tob(ph)), "ok", "proofverify-absent-header")
                 else:
                     add("proofverify %s %s %s %s %s %s %s" % (suite, tb(pk), tb(proof), tl([msgs[i] for i in sorted(set(D))]), ti(D), tob(hdr), tob(ph)), "err", "proofverify-invalid")
             # blind fixtures
@@ -457,6 +481,9 @@ class C10:
                 if j["result"]["valid"]:
                     add("blindsign %s %s %s %s %s %s" % (suite, tb(sk), tb(pk), tob(cwp), tob(hdr), tl(msgs)), expect_eq(sig), "blindsign")
                     add("blindverify %s %s %s %s %s %s %s" % (suite, tb(pk), tb(sig), tob(hdr), tl(msgs), tol(cm), tob(blind)), "ok", "blindverify")
+                    if hdr == b"":
+                        add("blindsign %s %s %s %s N %s" % (suite, tb(sk), tb(pk), tob(cwp), tl(msgs)), expect_eq(sig), "blindsign-absent-header")
+                        add("blindverify %s %s %s N %s %s %s" % (suite, tb(pk), tb(sig), tl(msgs), tol(cm), tob(blind)), "ok", "blindverify-absent-header")
             mj = json.load(open(os.path.join(root, "fixture_data_blind", "messages.json")))
             all_msgs = [fx(m) for m in mj["messages"]]; all_cm = [fx(m) for m in mj["committedMessages"]]
             for fn in sorted(glob.glob(os.path.join(bbase, "proof", "*.json"))):
@@ -542,9 +569,19 @@ class C11:
             ids += [(s, pyc.API[s]), (s, pyc.API_BLIND[s]), (s, b"BLIND_" + pyc.API_BLIND[s])]
         shared = P.rb(rng, 24)
         ids += [("sha", b""), ("shake", b""), ("shake", b"x"), ("sha", b"x"), ("sha", shared), ("shake", shared), ("sha", P.rb(rng, 40))]
+        # long interface ids that differ only in their LAST octets (a tag built by truncating the id would merge them)
+        small = {}
+        for Lid in ([100, 237, 238, 240] if tier == "quick" else [64, 100, 180, 200, 230, 236, 237, 238, 239, 240, 250]):
+            base = P.rb(rng, Lid - 1)
+            for s in P.SUITES:
+                for last in (b"\x01", b"\x02"):
+                    ids.append((s, base + last)); small[(s, base + last)] = 6
+        stats["long_ids"] = len(small)
         allpts = {}
         p1s = {}
+        N0 = N
         for s, api in ids:
+            N = small.get((s, api), N0)
             r = S.run(["gens %s %d S%s" % (s, N, api.hex())], expect="ok", label="gens")[0]
             pts = [r.b(1)[i:i+48] for i in range(0, len(r.b(1)), 48)]
             p1s[s] = r.b(0)
@@ -552,7 +589,7 @@ class C11:
             if len(set(pts)) != len(pts): P.fail(S, "gens-duplicate", "repeated generator", [api.hex()])
             if pyc.G1_ID in pts: P.fail(S, "gens-identity", "identity among generators", [api.hex()])
             if r.b(0) in pts: P.fail(S, "gens-p1", "P1 among generators", [api.hex()])
-            for k in ([0, 1, 2, 5, N // 2] if tier == "quick" else [0, 1, 2, 3, 5, 17, 100, N // 2, N - 1]):
+            for k in sorted(set(k for k in ([0, 1, 2, 5, N // 2] if tier == "quick" else [0, 1, 2, 3, 5, 17, 100, N // 2, N - 1]) if k <= N)):
                 r2 = S.run(["gens %s %d S%s" % (s, k, api.hex())], expect="ok", label="gens-prefix")[0]
                 if r2.b(1) != b"".join(pts[:k]): P.fail(S, "gens-prefix", "first %d generators depend on the count" % k, [api.hex()])
             for q in pts:
